@@ -23,7 +23,7 @@ RULE = ('periods are drawn from the product of boundary sets: dates {1 Jan, 28/2
         '30/31 Dec, random}, hours {0,1,11,12,22,23,random}^2 (overnight included), all 12 timesteps, both leap '
         'flags, shapes {one day, few days, months, annual, reversed short (Dec->Jan), reversed long, same-day '
         'reversed}; about 10 % malformed (bad month/day/hour/timestep, None/0 arguments, clipped end days). '
-        'The total number of enumerated steps per run is capped (quick 1.2e6, thorough 1.2e7 for the correspondence; 9e5 / 8e6 for the oracle; thorough adds every (st_hour, end_hour, timestep) triple mod 3 on 5 short date pairs x 2 leap flags). A case is '
+        'The total number of enumerated steps per run is capped (correspondence: quick 1.2e6, thorough 1e7; oracle: 9e5 / 6e6; the thorough oracle adds a 1-in-6 lattice of all (st_hour, end_hour, timestep) triples on 5 short date pairs x 2 leap flags). A case is '
         'non-trivial when the constructor accepts it; distinct = distinct (op, 8 constructor arguments).')
 TRUSTED_BASE = [
     'translator tools/extract/ap_tables.py: copies VALIDTIMESTEPS, NUMOFDAYSEACHMONTH(LEAP), MONTHNAMES',
@@ -384,8 +384,8 @@ def correspondence(ctx):
     from ladybug.dt import DateTime
     rng = ctx.rng
     big = ctx.searching
-    cases = _periods(ctx, ctx.n(1300, 12000) * (3 if big and ctx.quick else 1),
-                     ctx.n(1.2e6, 1.2e7) * (3 if big and ctx.quick else 1))
+    cases = _periods(ctx, ctx.n(1300, 10000) * (3 if big and ctx.quick else 1),
+                     ctx.n(1.2e6, 1e7) * (3 if big and ctx.quick else 1))
     _count_dist(ctx, cases)
     cs = [c for c, _ in cases]
     key = lambda c: tuple(c)  # noqa: E731
@@ -711,7 +711,7 @@ def _oracle_cases(ctx):
     rng = ctx.rng
     big = ctx.searching or not ctx.quick
     n = 5000 if big else 700
-    cap = 8e6 if big else 9e5
+    cap = 6e6 if big else 9e5
     if ctx.searching and ctx.quick:
         n, cap = 2500, 3e6
     cases = _periods(ctx, n, cap, rng=rng, malformed=0.12)
@@ -731,7 +731,9 @@ def _oracle_cases(ctx):
                 for sh in range(24):
                     for eh in range(24):
                         for ts in VALID_TS:
-                            if (sh * 24 + eh + ts) % (1 if ctx.searching else 3) == 0:
+                            if a == b and sh > eh:
+                                continue      # same-day reversed = the whole year; covered by the 'same-day' shape
+                            if (sh * 7 + eh * 5 + VALID_TS.index(ts)) % (3 if ctx.searching else 6) == 0:
                                 yield 'period', {'args': [a[0], a[1], sh, b[0], b[1], eh, ts, leap]}
 
 
